@@ -44,7 +44,12 @@ def demo(wt, path):
 
 
 def main():
-    props = sys.argv[1:]
+    args = sys.argv[1:]
+    srcfmt, tag = '/tmp/wt_%s/_out', 's'
+    if args and args[0].startswith('--round='):
+        r = args.pop(0).split('=')[1]
+        srcfmt, tag = '/tmp/wt' + r + '_%s/_out', 'r' + r + 's'
+    props = args
     wt = tempfile.mkdtemp(prefix='verif-wt-')
     os.rmdir(wt)
     r = sh(['git', '-C', '/repo', 'worktree', 'add', '-q', '--detach', wt, 'HEAD'])
@@ -57,13 +62,13 @@ def main():
         sh(['git', '-C', wt, 'checkout', '--', '.'])
         sh(['git', '-C', wt, 'clean', '-fdq'])
         for prop in props:
-            src = '/tmp/wt_%s/_out' % prop
+            src = srcfmt % prop
             for k in (1, 2, 3, 4, 5):
                 patch = os.path.join(src, 'patch%d.diff' % k)
                 dm = os.path.join(src, 'demo%d.py' % k)
                 if not (os.path.exists(patch) and os.path.exists(dm)):
                     continue
-                sid = '%s-s%d' % (prop, k)
+                sid = '%s-%s%d' % (prop, tag, k)
                 note = open(os.path.join(src, 'note%d.txt' % k)).read() \
                     if os.path.exists(os.path.join(src, 'note%d.txt' % k)) else ''
                 dcopy = os.path.join(wt, '_demo.py')
